@@ -82,7 +82,7 @@ CLAIMED = {
   "No length information exists for *[1<<30]T, so buffer bounds cannot be decided; in-bounds loc is assumed. cgo-generated code is not modelled.",
   "sibling rule-set agreement + who-may-convert rule for unsafe.Pointer + dominator-based call-protocol check"),
  "C04": ("other",
-  "Structural necessary conditions of cell independence, decided on each of the 41 generated wrappers and their kernels: inputs and parameter views are never written (interprocedural effect summaries incl. Unroll aliases and closure captures); every write to states/outputs goes through a view restricted to the goroutine's own cell (pos[CELL]==i, size[CELL]==1, vectors allocated per goroutine); every broadcast `i % n` uses the extent of the array actually indexed; table parameters are cut to the cell's own length; kernel arguments are the spec's inputs/params/outputs in order; no slice aliasing a shared array is grown with append; no package-level storage is written on the per-cell path (interprocedural, through helpers and slices of global arrays). Equality of values with single-cell runs is NOT established directly.",
+  "Structural necessary conditions of cell independence, decided on each of the 41 generated wrappers and their kernels: inputs and parameter views are never written (interprocedural effect summaries incl. Unroll aliases and closure captures); every write to states/outputs goes through a view restricted to the goroutine's own cell (pos[CELL]==i, size[CELL]==1, vectors allocated per goroutine); every broadcast `i % n` uses the extent of the array actually indexed; table parameters are cut to the cell's own length; kernel arguments are the spec's inputs/params/outputs in order; no slice aliasing a shared array is grown with append; no package-level storage is written on the per-cell path (interprocedural, through helpers and slices of global arrays); the shared state array of models with a custom init function is allocated with the maximum of the cells' state-vector lengths as row width (found and fixed: rows were sized from cell 0, so N-cell GR4J/Lag runs with growing X4/timeLag panicked). Equality of values with single-cell runs is NOT established directly.",
   "DESIGN.md section 2, C04",
   "ND view methods (Slice/Reshape/MustReshape/ReshapeFast) are taken to share storage (checked separately by C01/C02). Row count of pack-function results proven only for constant extents. ApplyParameters row-block arithmetic not decided.",
   "effect summaries + reaching-store evaluation of index vectors on go/ssa, per generated wrapper"),
